@@ -325,10 +325,33 @@ def algebra (isFloat : Bool) (name : String) (ops : List (Operand K)) : String :
   | "upper", [.M A] => outS (matUpperSym A)
   | "full", [.S A] => outMB (.ok A.mb)
   | "inv", [.M A, .K tol] =>
-    match invert A.rows A.cols tol (fnOf A.data) with
-    | .error .badRank => "throw BadRank"
-    | .error .singular => "throw Singular"
-    | .ok f => outM (.ok ⟨A.rows, A.cols, arrOf (A.rows * A.cols) f⟩)
+    if A.rows ≤ 3 ∨ A.rows ≠ A.cols then
+      -- the literal model, swap loops included
+      match invert A.rows A.cols tol (fnOf A.data) with
+      | .error .badRank => "throw BadRank"
+      | .error .singular => "throw Singular"
+      | .ok f => outM (.ok ⟨A.rows, A.cols, arrOf (A.rows * A.cols) f⟩)
+    else
+      -- Arrays-as-functions make the literal swap loops of the model very slow beyond 3x3
+      -- (every read replays the loops).  For larger N the driver runs the elimination of the
+      -- model literally and applies the permutation undo through the *proved* closed form
+      --   final (indc s * N + indr t) = m (indr s * N + indc t)      (Props.C15.undo_permutation)
+      -- after checking its hypothesis (indr, indc are permutations of 0..N-1) at run time.
+      let N := A.rows
+      match gjEliminate N tol N ⟨fnOf A.data, id, id, 0, 0⟩ with
+      | none => "throw Singular"
+      | some g =>
+        let mm := arrOf (N * N) g.m
+        let ir := (Array.range N).map g.indr
+        let ic := (Array.range N).map g.indc
+        let isPerm (a : Array Nat) : Bool := (List.range N).all (fun v => (a.toList.filter (· == v)).length == 1)
+        if isPerm ir && isPerm ic then
+          let pos (a : Array Nat) (v : Nat) : Nat := (a.toList.findIdx? (· == v)).getD 0
+          outM (.ok ⟨N, N, (Array.range (N * N)).map (fun p =>
+            let s := pos ic (p / N)
+            let t := pos ir (p % N)
+            mm.getD (ir.getD s 0 * N + ic.getD t 0) (0 : K))⟩)
+        else outM (.ok ⟨N, N, arrOf (N * N) (undoPermutation N g.indr g.indc g.m)⟩)
   | "chol", [.S A, .K tol] =>
     if !isFloat then "skip" else
     match cholDec A.dim tol (fnOf A.data) with
